@@ -5,7 +5,7 @@
    The sponge theorems hold for an ARBITRARY permutation f in place of keccakF1600. *)
 From Coq Require Import ZArith NArith List.
 From V Require Import Prim.Keccak Prim.Sha2 Spec.HashSpec Model.Hashers
-  Proofs.SpongeFacts Proofs.HashersProofs Proofs.KmacProofs.
+  Proofs.SpongeFacts Proofs.HashersProofs Proofs.KmacProofs Proofs.KmacInjective.
 Import ListNotations.
 
 (* ================= sponge hashers: SHA3-256, SHA3-384, legacy Keccak-256 ================= *)
@@ -203,6 +203,22 @@ Theorem C13_kmac_write_after_sum_continues :
 Proof. exact kmac_write_after_sum. Qed.
 Print Assumptions C13_kmac_write_after_sum_continues.
 
+(* domain separation (used by C16): KMAC128(K, X, L, S) is the FIPS 202 sponge over
+   kmac_absorbed S K X = bytepad(encode_string("KMAC") || encode_string(S), 168) ||
+   bytepad(encode_string(K), 168) || X || right_encode(L), and with L fixed that byte string
+   determines the customizer, the key and the message *)
+Theorem C13_KMAC128_as_sponge :
+  forall K X outlen S,
+    KMAC128 K X outlen S = sponge_hash keccakf 168 4 outlen (kmac_absorbed S K X outlen).
+Proof. exact KMAC128_as_sponge. Qed.
+Print Assumptions C13_KMAC128_as_sponge.
+
+Theorem C13_kmac_framing_injective :
+  forall outlen S K X S' K' X',
+    kmac_absorbed S K X outlen = kmac_absorbed S' K' X' outlen -> S = S' /\ K = K' /\ X = X'.
+Proof. exact kmac_framing_injective. Qed.
+Print Assumptions C13_kmac_framing_injective.
+
 Theorem C13_kmac_rejects :
   forall key cust out,
     ((out < 0)%Z -> NewKMAC_128 key cust out = inr EOutputSize) /\
@@ -278,6 +294,9 @@ Proof.
   { split; [cbn; repeat constructor|]. split; [discriminate|]. split; reflexivity. }
   split; [exact P|]. destruct (new_kmac_ok (repeat 1%N 16) [2%N] 32 P) as (k & H1 & H2 & _). eauto.
 Qed.
+
+Example C13_nonvacuous_framing : kmac_absorbed [1%N] (repeat 2%N 16) [3%N] 32 = kmac_absorbed [1%N] (repeat 2%N 16) [3%N] 32.
+Proof. reflexivity. Qed.
 
 Example C13_nonvacuous_kmac_reject :
   (-1 < 0)%Z /\ (0 <= 32)%Z /\ length (repeat 1%N 15) < KmacMinKeyLen.
